@@ -6,7 +6,7 @@
 From Coq Require Import List String ZArith Bool Ascii Arith Lia.
 From Cog Require Import Model.IR Model.Json Model.GoSemBase Model.GoSemValidate Model.Src Model.FrontEnd Model.FrontEndSpec
   Model.FrontEndCue Model.FrontEndSpecCue Model.FrontEndSpecCue2.
-From Cog Require Import Proofs.FrontEndCueLeaves Proofs.FrontEndCueOrder.
+From Cog Require Import Proofs.FrontEndLemmas Proofs.FrontEndAccept Proofs.FrontEndCueLeaves Proofs.FrontEndCueOrder.
 Import ListNotations.
 Local Open Scope list_scope.
 Local Open Scope string_scope.
@@ -120,7 +120,7 @@ Qed.
 
 (* ---------- the types inside a well-formed schema ---------- *)
 Definition cue_good (s : src_schema) (t : src_ty) : Prop :=
-  cue_supported t = true /\ ty_wf (src_defs s) t = true /\ cue_bounds_in_width t = true /\ ty_small t = true /\
+  cue_supported t = true /\ ty_wf (src_defs s) t = true /\ cue_bounds_in_width t = true /\
   forallb (fun n => str_in n (map fst (src_defs s))) (refs_of t) = true.
 Definition cue_nonref (t : src_ty) : bool := match t with SRef _ => false | _ => true end.
 
@@ -140,8 +140,6 @@ Proof. reflexivity. Qed.
 Section CueCtx.
   Variable s : src_schema.
   Hypothesis W : src_wf_cue s = true.
-  Hypothesis SM : schema_bounds_small s = true.
-  Hypothesis AR : schema_aliases_resolve s = true.
   Local Notation defs := (src_defs s).
   Local Notation pkg := (src_pkg s).
   Local Notation ctx := (parse_ctx_cue s).
@@ -150,8 +148,7 @@ Section CueCtx.
   Lemma cue_good_def k t : In (k, t) defs -> cue_good s t.
   Proof.
     intro I. destruct (cue_wf_parts s W) as [_ [_ ALL]]. destruct (ALL k t I) as [A [B [C D]]].
-    unfold schema_bounds_small in SM. rewrite forallb_forall in SM. repeat split; auto.
-    apply (SM _ I).
+    repeat split; auto.
   Qed.
 
   Lemma cue_in_order k t : In (k, t) defs -> str_in k (cue_order s) = true.
@@ -209,13 +206,23 @@ Section CueCtx.
       intro F. cbn [plus cue_ty]. rewrite cue_alts_ref. rewrite (cue_locate_ok name t' L). cbn [cue_obj o_type]. apply K2.
   Qed.
 
-  Lemma cue_resolve_total t : cue_good s t -> exists rt, src_resolve defs fuel t = Some rt.
+  (* alias cycles: src_resolve fails within its fuel iff it fails with every fuel (Proofs/FrontEndAccept.v
+     resolve_stable), and then the IR side has no alternative at all *)
+  Lemma cue_none_alts : forall F t, src_resolve defs F t = None -> alternatives ctx F (cue_ty pkg t) = [].
   Proof.
-    intro G. destruct t; try (eexists; reflexivity).
-    destruct G as [_ [_ [_ [_ G]]]]. cbn [refs_of forallb] in G. rewrite andb_true_r in G.
-    apply cue_str_in_In in G. apply in_map_iff in G. destruct G as [[k t] [E I]]. simpl in E. subst k.
-    unfold schema_aliases_resolve in AR. rewrite forallb_forall in AR. specialize (AR _ I). cbn [fst] in AR.
-    destruct (src_resolve defs fuel (SRef name)) as [rt|]; [|discriminate]. exists rt. reflexivity.
+    induction F as [|F IH]; intros t R; [reflexivity|].
+    destruct t; simpl in R; try discriminate.
+    cbn [cue_ty]. rewrite cue_alts_ref.
+    destruct (src_lookup defs name) as [t'|] eqn:L.
+    - rewrite (cue_locate_ok name t' L). cbn [cue_obj o_type]. apply IH. exact R.
+    - destruct (cue_wf_parts s W) as [SUP _]. rewrite (cue_locate_parse s name SUP), L.
+      destruct (str_in name (cue_order s)); reflexivity.
+  Qed.
+
+  Lemma cue_alts_none t F : src_resolve defs fuel t = None -> alternatives ctx F (cue_ty pkg t) = [].
+  Proof.
+    intro R. apply cue_none_alts. destruct (src_resolve defs F t) as [rt|] eqn:RF; auto.
+    apply resolve_stable in RF. congruence.
   Qed.
 
   (* the alternatives of a resolved (reference-free at the top) type *)
@@ -252,13 +259,12 @@ Section CueCtx.
       destruct t'; try discriminate. destruct fs; reflexivity.
   Qed.
 
-  Lemma cue_alts_enough t F : cue_good s t -> (List.length defs + 4 <= F)%nat ->
-    exists rt, src_resolve defs fuel t = Some rt /\ cue_good s rt /\ cue_nonref rt = true /\
-               alternatives ctx F (cue_ty pkg t) = cue_alts_nr rt.
+  Lemma cue_alts_enough t F rt : cue_good s t -> (List.length defs + 4 <= F)%nat -> src_resolve defs fuel t = Some rt ->
+    cue_good s rt /\ cue_nonref rt = true /\ alternatives ctx F (cue_ty pkg t) = cue_alts_nr rt.
   Proof.
-    intros G HF. destruct (cue_resolve_total t G) as [rt R]. exists rt.
+    intros G HF R.
     destruct (cue_resolve_good _ _ _ G R) as [G' NR].
-    split; [exact R|]. split; [exact G'|]. split; [exact NR|].
+    split; [exact G'|]. split; [exact NR|].
     destruct (cue_resolve_alts _ _ _ R) as [k [K1 K2]].
     replace F with (k + S (S (S (F - k - 3))))%nat by lia.
     rewrite K2. apply cue_alts_nonref; auto.
@@ -312,11 +318,8 @@ Section CueCtx.
     - (* floats *)
       destruct j as [|jb|m e|js|jl|jms]; try (cbn [cue_sv_simple cue_ty]; destruct (seqb w "float32"); reflexivity).
       cbn [cue_sv_simple cue_ty cue_alt_check dyn_is_nil negb orb].
-      destruct G as [_ [_ [_ [G _]]]]. cbn [ty_small] in G.
-      apply andb_true_iff in G. destruct G as [G G4]. apply andb_true_iff in G. destruct G as [G G3].
-      apply andb_true_iff in G. destruct G as [G1 G2].
       rewrite cue_scalar_float by (destruct (seqb w "float32"); reflexivity).
-      rewrite (cue_bounds_agree _ _ _ _ m e G1 G2 G3 G4).
+      rewrite cue_bounds_agree.
       assert (NF : cue_number_form (if seqb w "float32" then KFloat32 else KFloat64) (JNum m e) = Z.ltb e 0)
         by (destruct (seqb w "float32"); reflexivity).
       rewrite NF. apply andb_comm.
@@ -327,8 +330,8 @@ Section CueCtx.
       cbn [cue_sv_simple cue_ty cue_alt_check dyn_is_nil negb orb cue_number_form]. rewrite andb_true_r.
       rewrite cue_scalar_datetime. reflexivity.
     - destruct j; reflexivity.
-    - destruct G as [G1 [_ [_ [G4 _]]]]. cbn [cue_sv_simple cue_ty]. apply cue_const_agree; assumption.
-    - destruct G as [G1 [_ [_ [G4 _]]]].
+    - destruct G as [G1 _]. cbn [cue_sv_simple cue_ty]. apply cue_const_agree; assumption.
+    - destruct G as [G1 _].
       assert (E : forall j0, cue_sv_simple defs j0 (SEnum vals) = in_list j0 vals) by (intro j0; destruct j0; reflexivity).
       rewrite E. apply cue_enum_agree; assumption.
     - destruct j; try reflexivity. cbn [cue_sv_simple cue_ty cue_alt_check].
@@ -352,7 +355,7 @@ Section CueCtx.
     src_valid CUE defs JNull t = match src_resolve defs fuel t with Some SAny => true | _ => false end.
   Proof.
     intro G. rewrite cue_src_valid_unfold. unfold cue_sv_body.
-    destruct (cue_resolve_total t G) as [rt R]. rewrite R.
+    destruct (src_resolve defs fuel t) as [rt|] eqn:R; [|reflexivity].
     destruct (cue_resolve_good _ _ _ G R) as [G' NR].
     destruct rt; try reflexivity.
     - cbn [cue_sv_simple]. apply cue_json_eq_null. right. apply G'.
@@ -371,9 +374,13 @@ Section CueCtx.
   Proof.
     intro G. rewrite !cue_ir_accepts_unfold. destruct cue_alt_fuel_split as [N [EN LN]]. rewrite EN.
     rewrite cue_alts_disj. cbn [flat_map]. rewrite existsb_app.
-    destruct (cue_alts_enough t (S N) G) as [rt1 [R1 [_ [_ A1]]]]; [lia|].
-    destruct (cue_alts_enough t (S (S N)) G) as [rt2 [R2 [_ [_ A2]]]]; [lia|].
-    rewrite R1 in R2. inversion R2. subst rt2. rewrite A1, A2.
+    assert (EA : alternatives ctx (S N) (cue_ty pkg t) = alternatives ctx (S (S N)) (cue_ty pkg t)).
+    { destruct (src_resolve defs fuel t) as [rt|] eqn:R.
+      - destruct (cue_alts_enough t (S N) rt G) as [_ [_ A1]]; [lia|exact R|].
+        destruct (cue_alts_enough t (S (S N)) rt G) as [_ [_ A2]]; [lia|exact R|].
+        rewrite A1, A2. reflexivity.
+      - rewrite !cue_alts_none by exact R. reflexivity. }
+    rewrite EA.
     f_equal. change (alternatives ctx (S N) t_null) with [t_null].
     cbn [app existsb]. rewrite cue_alt_check_null. apply orb_false_r.
   Qed.
@@ -415,12 +422,11 @@ Section CueCtx.
 
   Lemma cue_good_struct_fields fs f : cue_good s (SStruct fs) -> In f fs -> cue_good s (sf_type f).
   Proof.
-    intros [G1 [G2 [G3 [G4 G5]]]] I.
+    intros [G1 [G2 [G3 G5]]] I.
     cbn [cue_supported] in G1. apply andb_true_iff in G1. destruct G1 as [_ G1]. rewrite forallb_forall in G1.
     specialize (G1 f I). apply andb_true_iff in G1. destruct G1 as [A1 _].
     cbn [ty_wf] in G2. apply andb_true_iff in G2. destruct G2 as [_ G2]. rewrite forallb_forall in G2.
     cbn [cue_bounds_in_width] in G3. rewrite forallb_forall in G3.
-    cbn [ty_small] in G4. rewrite forallb_forall in G4.
     cbn [refs_of] in G5. rewrite forallb_forall in G5.
     repeat split; auto.
     apply forallb_forall. intros x Ix. apply G5. apply in_flat_map. exists f. split; assumption.
@@ -440,9 +446,9 @@ Section CueCtx.
   Qed.
 
   Lemma cue_good_simple b : is_simple_branch b = true -> cue_supported b = true -> cue_bounds_in_width b = true ->
-    ty_small b = true -> cue_good s b.
+    cue_good s b.
   Proof.
-    intros H S1 S2 T. unfold cue_good. destruct b; try discriminate; try (repeat split; auto; fail).
+    intros H S1 S2. unfold cue_good. destruct b; try discriminate; try (repeat split; auto; fail).
     destruct b; try discriminate; repeat split; auto.
   Qed.
 
@@ -473,12 +479,11 @@ Section CueCtx.
       apply cue_struct_agree; auto.
     - (* union *)
       cbn [cue_alts_nr]. rewrite cue_existsb_map. apply cue_existsb_ext_in. intros b I.
-      pose proof G as [G1 [G2 [G3 [G4 G5]]]].
+      pose proof G as [G1 [G2 [G3 G5]]].
       cbn [ty_wf] in G2. rewrite forallb_forall in G2. destruct (cue_simple_branch_kind b (G2 b I)) as [SK NB].
       rewrite (cue_resolve_nonref _ b NB). apply cue_simple_agree; auto.
       cbn [cue_supported] in G1. apply andb_true_iff in G1. destruct G1 as [_ G1]. rewrite forallb_forall in G1.
       cbn [cue_bounds_in_width] in G3. rewrite forallb_forall in G3.
-      cbn [ty_small] in G4. rewrite forallb_forall in G4.
       apply cue_good_simple; auto.
     - (* union of definitions *)
       cbn [cue_alts_nr]. rewrite cue_existsb_flat_map.
@@ -508,27 +513,39 @@ Section CueCtx.
   Proof.
     assert (X : forall j, cue_kids j -> cue_Pk j).
     { intros j K t G. rewrite cue_src_valid_unfold, cue_ir_accepts_unfold. unfold cue_sv_body.
-      destruct (cue_alts_enough t (alt_fuel ctx) G) as [rt [R [G' [NR A]]]]; [pose proof cue_alt_fuel_ge; lia|].
-      rewrite R, A. apply cue_resolved_agree; auto. }
+      destruct (src_resolve defs fuel t) as [rt|] eqn:R.
+      - destruct (cue_alts_enough t (alt_fuel ctx) rt G) as [G' [NR A]]; [pose proof cue_alt_fuel_ge; lia|exact R|].
+        rewrite A. apply cue_resolved_agree; auto.
+      - rewrite (cue_alts_none t _ R). reflexivity. }
     induction j using cue_json_ind; apply X; auto; try exact I.
   Qed.
 End CueCtx.
 
-(* parse_cue_preserves_acceptance_partial.  No hypothesis is added to the statement asked for: that every definition
-   occurs in the first-touch order cue_order s (so parse_cue declares an object for it) is proved for every schema in
-   Proofs/FrontEndCueOrder.v (cue_order_complete_holds).  json_wf d is not used. *)
-Theorem parse_cue_preserves_acceptance_partial :
-  forall s tname d, src_wf_cue s = true -> schema_bounds_small s = true -> schema_aliases_resolve s = true ->
-    json_wf d = true -> str_in tname (map fst (src_defs s)) = true -> cue_acceptance_agrees s tname d = true.
+(* parse_cue_preserves_acceptance_partial EXACTLY as required, no extra hypothesis.
+   - every definition occurs in the first-touch order cue_order s, so parse_cue declares an object for it: proved for
+     every schema in Proofs/FrontEndCueOrder.v (cue_order_complete_holds);
+   - float bounds are unrestricted (FEDec.dec_roundtrip through bounds_agree_val), numeric constants / enum values may
+     carry an exponent (FEDec.num_norm_value through json_eq_num_val);
+   - alias cycles are rejected by both sides (resolve_stable / cue_alts_none).
+   json_wf d is not used. *)
+Theorem parse_cue_preserves_acceptance_partial_strong :
+  forall s tname d, src_wf_cue s = true -> json_wf d = true -> str_in tname (map fst (src_defs s)) = true ->
+    cue_acceptance_agrees s tname d = true.
 Proof.
-  intros s tname d W SM AR WF IN.
+  intros s tname d W WF IN.
   unfold cue_acceptance_agrees, src_valid_doc, ir_accepts_c_doc.
   assert (G : cue_good s (SRef tname)).
   { unfold cue_good. repeat split; auto. cbn [refs_of forallb]. rewrite IN. reflexivity. }
-  pose proof (cue_main_agree s W SM AR d (SRef tname) G) as E.
+  pose proof (cue_main_agree s W d (SRef tname) G) as E.
   change (cue_ty (src_pkg s) (SRef tname)) with (TRef attrs0 (src_pkg s) tname) in E. unfold CUE in E.
   destruct d; try reflexivity; rewrite E; apply eqb_reflx.
 Qed.
+
+(* the first proved form (schema_bounds_small s and schema_aliases_resolve s are no longer needed): kept under its name *)
+Theorem parse_cue_preserves_acceptance_partial :
+  forall s tname d, src_wf_cue s = true -> schema_bounds_small s = true -> schema_aliases_resolve s = true ->
+    json_wf d = true -> str_in tname (map fst (src_defs s)) = true -> cue_acceptance_agrees s tname d = true.
+Proof. intros s tname d W _ _. apply parse_cue_preserves_acceptance_partial_strong; assumption. Qed.
 
 (* ---------- the hypotheses are satisfiable: a schema with every construct, an accepted and a rejected document ---------- *)
 Definition cue_nv_schema : src_schema :=
@@ -564,6 +581,31 @@ Theorem cue_frontend_nonvacuous :
   cue_acceptance_agrees cue_nv_schema "Root" (cue_nv_doc 51) = true.
 Proof. vm_compute. repeat split; reflexivity. Qed.
 
+(* what the strong form covers beyond the first one: a float bound with 6 digits and exponent -5, a constant written with
+   an exponent, an alias cycle (A = B, B = A: both sides reject every document) *)
+Definition cue_nv2_schema : src_schema :=
+  mkSrc "p" "Root"
+    [("Root", SStruct [mkSField "ratio" (SFloat "float64" None None None (Some (123456, -5)%Z)) true false false;
+                       mkSField "k" (SConst (JNum 5 2)) true false false;
+                       mkSField "loop" (SRef "A") false false false]);
+     ("A", SRef "B"); ("B", SRef "A")].
+Definition cue_nv2_doc (k : Z) : json := JObj [("ratio", JNum 12 (-1)); ("k", JNum k 1)].
+
+Theorem cue_frontend_strong_nonvacuous :
+  src_wf_cue cue_nv2_schema = true /\ schema_bounds_small cue_nv2_schema = false /\
+  schema_aliases_resolve cue_nv2_schema = false /\
+  json_wf (cue_nv2_doc 50) = true /\
+  src_valid_doc "cue" cue_nv2_schema "Root" (cue_nv2_doc 50) = true /\
+  cue_acceptance_agrees cue_nv2_schema "Root" (cue_nv2_doc 50) = true /\
+  src_valid_doc "cue" cue_nv2_schema "Root" (cue_nv2_doc 51) = false /\
+  cue_acceptance_agrees cue_nv2_schema "Root" (cue_nv2_doc 51) = true /\
+  src_valid_doc "cue" cue_nv2_schema "A" (JNum 1 0) = false /\
+  cue_acceptance_agrees cue_nv2_schema "A" (JNum 1 0) = true /\
+  cue_acceptance_agrees cue_nv2_schema "Root" (JObj (("loop", JNum 1 0) :: match cue_nv2_doc 50 with JObj l => l | _ => [] end)) = true.
+Proof. vm_compute. repeat split; reflexivity. Qed.
+
 Print Assumptions cue_order_complete_holds.
+Print Assumptions parse_cue_preserves_acceptance_partial_strong.
 Print Assumptions parse_cue_preserves_acceptance_partial.
 Print Assumptions cue_frontend_nonvacuous.
+Print Assumptions cue_frontend_strong_nonvacuous.
